@@ -8,7 +8,7 @@ EXPLANATION = ("S1-S12 every request builder is abstractly evaluated (path-sensi
                "on every path that issues the operation, with the RFC 4511 shape transcribed in this module - class, tag number, element "
                "order, optionality condition and *which parameter feeds which slot*; S13 the LDAPMessage envelope SEQUENCE{INTEGER id, op, "
                "[0]{control*} iff controls are Some}; S14 the control SEQUENCE{OCTET ctype, BOOLEAN TRUE only if critical, OCTET value only "
-               "if present}; S15 each method passes the right LdapOp variant; enumerations Scope/DerefAliases equal RFC 4511; M1 the issue "
+               "if present} - S13 / S14 by interpreting the encoder once per member of the finite partition controls Some / None x crit true / false x val Some / None (fields fixed to variant / literal knowledge) and comparing the emitted component list of each member; S15 each method passes the right LdapOp variant; enumerations Scope/DerefAliases equal RFC 4511; M1 the issue "
                "point takes controls and timeout out of the handle (Option::take), the streaming search moves all three modifiers to the "
                "stream's handle, the search start takes the options; M2/M3 on every path of every public operation method on which the "
                "operation is issued - and on every path on which it is rejected locally - all three modifiers have been consumed; M5 the "
@@ -123,37 +123,100 @@ def modifiers_consumed(st, base):
         res[m] = v == ('ctor', 'None', ())
     return res
 
+RAW_CONTROL = 'ldap3::controls_impl::RawControl'       # public item, anchored by def-path
+
+def many_nodes(sh):
+    """the repeated-element items of a shape, at any depth"""
+    out = []
+    def rec(x):
+        if x[0] == 'MANY':
+            out.append(x); rec(x[3])
+        elif x[0] == 'C':
+            for y in x[3]:
+                rec(y)
+    rec(sh)
+    return out
+
 def check_envelope(ctx, f, R='S'):
-    """The LDAPMessage envelope and control encoder (shared by C02 S13/S14 and C19's envelope clause)."""
-    # ------------------------------------------------------------------ S13/S14 envelope and control
+    """The LDAPMessage envelope and control encoder (shared by C02 S13/S14 and C19's envelope clause).
+
+    RFC 4511 4.1.1 / 4.1.11:  LDAPMessage ::= SEQUENCE { messageID, protocolOp, controls [0] Controls OPTIONAL }
+                              Control ::= SEQUENCE { controlType LDAPOID, criticality BOOLEAN DEFAULT FALSE, controlValue OCTET STRING OPTIONAL }
+    with the DER-style default the library uses on the wire: criticality is present exactly when it is TRUE.  What the encoder
+    emits can depend on the message only through the presence conditions: the control list Some / None and, per control, crit
+    true / false x val Some / None (the bool / Option fields of RawControl, read off the struct's definition).  The encoder -
+    LdapCodec::encode with the per-control builder evaluated interprocedurally on one generic member of the list - is interpreted once
+    per member of that finite partition, with the list's presence and the generic control's fields fixed to variant / literal
+    knowledge; S13 compares the whole message of every path of every member with the envelope shape, S14 states per member of the
+    control partition that there is a path and that the control's component list on it is the RFC's for that member.  Conditional
+    pushes, a `match` on the pair, `vec![..]` literals per arm or an `insert` are the same thing here: every test of a fixed field
+    is decided by the interpreter, nothing is read off the spelling of a path condition."""
     enc = [p for p in f.hir if p.startswith('<ldap3::protocol::LdapCodec as tokio_util::codec::encoder::Encoder<') and p.endswith('>::encode')]
-    E = hirq.Body(f, f.body(anchors.one('Encoder::encode', enc)))
+    rec = f.body(anchors.one('Encoder::encode', enc))
+    E = hirq.Body(f, rec)
     ctx.analysed['bodies'].add(E.path)
-    outs = absx.Interp(f, E, unroll=1, inline=inline_policy, combinators=True).run()
-    msg = ('param', 'msg')
+    # the item being encoded: the parameter of tuple type (id, protocolOp, controls), whatever it is called
+    items = [(i, q) for i, q in enumerate(rec['params']) if (q.get('ty') or '').startswith('(')]
+    fields = partition_fields(f, RAW_CONTROL)
+    if len(items) != 1 or fields is None:
+        ctx.fail('anchor-missing', 'Encoder::encode item / RawControl', loc(E.root), 'expected one tuple-typed parameter of the encoder and the struct %s' % RAW_CONTROL); return
+    idx, q = items[0]
+    msg = ('param', q['name']) if q.get('k') == 'Bind' and 'sub' not in q else ('param', '#%d' % idx)
+    msg2 = ('field', msg, '2')
+    is_val = lambda t, env: t[0] == 'field' and t[2] == 'val'
     ctl = SEQ(OCT(field_of(elem(), 'ctype')),
               OPT(lambda pc: next((t for a, t in pc if a[0] == 'field' and a[2] == 'crit'), None), BOOL(lit(True)), 'criticality'),
-              OPT(is_some(lambda t, env: t[0] == 'field' and t[2] == 'val'), OCT(some_payload(lambda t, env: t[0] == 'field' and t[2] == 'val')), 'controlValue'))
-    is_msg2 = lambda t, env: t == ('field', msg, '2')
+              OPT(is_some(is_val), OCT(some_payload(is_val)), 'controlValue'))
+    is_msg2 = lambda t, env: t == msg2
     ENVELOPE = SEQ(INT(lambda t, env: strip(t) == ('field', msg, '0')), ANY(lambda t, env: t == ('field', msg, '1')),
                    OPT(is_some(is_msg2), C('C', 0, MANY(some_payload(is_msg2), ctl)), 'controls'))
+    is_ctl = lambda b: b[0] == 'elem' and bool(absx.leaves(b, lambda x: x == msg2))      # a member of the message's control list
     n = 0
-    combos = set()
-    for o in outs:
-        wr = [e for e in o.st.ev if e[0] == 'call' and e[1].endswith('::maybe_wrap')]
-        if not wr:
-            continue
-        n += 1
-        env = {'elems': [], 'pc': o.st.pc}
-        sh = to_shape(wr[0][2][1])
-        mism = compare(sh, ENVELOPE, o.st.pc, env)
-        crit = next((t for a, t in o.st.pc if a[0] == 'field' and a[2] == 'crit'), None)
-        val = is_some(lambda t, env: t[0] == 'field' and t[2] == 'val')(o.st.pc)
-        has = is_some(is_msg2)(o.st.pc)
-        combos.add((has, crit, val))
-        ctx.add(R + '13.envelope-shape', 'controls=%s,crit=%s,val=%s' % (has, crit, val), loc(E.root), not mism, '; '.join(mism)[:400] or 'matches RFC 4511')
-    for need in [(False, None, None), (True, True, True), (True, False, False), (True, True, False), (True, False, True)]:
-        ctx.add(R + '14.control-optionality', str(need), loc(E.root), need in combos, 'no encoder path for (controls, critical, value) = %s' % (need,))
+    for has in (False, True):
+        for case in (partition_cases(fields) if has else [()]):
+            hook = CaseHook(is_ctl, case)
+            I = absx.Interp(f, E, unroll=1, inline=inline_policy, combinators=True, field_hook=hook)
+            env = {}
+            for bnd, t in I.param_env().items():
+                # the item as a tuple whose third component is fixed; a signature that takes the tuple apart binds that component directly
+                env[bnd] = ('tuple', (('field', msg, '0'), ('field', msg, '1'), case_value(msg, '2', 'option', has))) if t == msg \
+                    else case_value(msg, '2', 'option', has) if t == msg2 else t
+            outs = I.run(env=env)
+            what = 'controls=None' if not has else 'controls=Some, ' + case_name(case)
+            found, bad = 0, []
+            for o in outs:
+                wr = [e for e in o.st.ev if e[0] == 'call' and e[1].endswith('::maybe_wrap')]
+                if not wr:
+                    continue
+                n += 1
+                found += 1
+                sh = to_shape(wr[0][2][1])
+                # the member of the partition as path-condition atoms: about the list, and about the generic control - the term the
+                # encoder read the fixed fields of and the element the repeated item runs over (an encoder that never looks at a
+                # field is judged for every value of it all the same)
+                ctls = hook.bases + [m[2] for m in many_nodes(sh) if m[2] not in hook.bases]
+                pc = case_atoms(msg, (('2', 'option', has),)) + tuple(a for b in ctls for a in case_atoms(b, case)) + o.st.pc
+                env2 = {'elems': [], 'pc': pc}
+                mism = compare(sh, ENVELOPE, pc, env2)
+                und = undecided_optionals(ENVELOPE, pc) if has and many_nodes(sh) else []
+                if und:
+                    mism = mism + ['the presence of %s is not decided for this member of the partition' % ', '.join(und)]      # (fail closed)
+                ctx.add(R + '13.envelope-shape', what, loc(E.root), not mism, ('for a message with %s: ' % what) + ('; '.join(mism)[:400] or 'matches RFC 4511'))
+                if has:
+                    rep = many_nodes(sh)
+                    if len(rep) != 1:
+                        bad.append('the message does not hold one repeated element (the controls): %s' % fmt_shape(sh)[:200])
+                    else:
+                        bad += compare(rep[0][3], ctl, pc, {'elems': [rep[0][2]], 'pc': pc}, 'Control')
+                elif many_nodes(sh):
+                    bad.append('controls are encoded although the list is None: %s' % fmt_shape(sh)[:200])
+            if not found:
+                bad.append('no encoder path')
+            want = 'no [0]' if not has else 'SEQUENCE { controlType%s%s }' % (', criticality TRUE' if dict((k, v) for k, _t, v in case).get('crit') else '',
+                                                                              ', controlValue' if dict((k, v) for k, _t, v in case).get('val') else '')
+            ctx.add(R + '14.control-optionality', what, loc(E.root), not bad,
+                    '%s: RFC 4511 (criticality BOOLEAN DEFAULT FALSE, controlValue OPTIONAL) wants %s; %s' % (what, want, '; '.join(sorted(set(bad)))[:400]))
+    ctx.floor(R + '13', 'encoder paths over the (controls, criticality, value) partition', n, 5)
 
 
 
